@@ -3,8 +3,8 @@
 # for about every second file. When the leak reaches the open-files limit the remaining files
 # fail with "Too many open files" and silently drop out of the report; how many do differs
 # from run to run. The same tree with a transform that writes to stdout is reported in full.
-CO=${1:-/tmp/hunt/n5}
-F=/tmp/hunt/n5/target/debug/fclones
+CO=${1:-/repo}
+F=${1:-/repo}/target/debug/fclones
 [ -x "$F" ] || F="$CO/target/debug/fclones"
 S=$(mktemp -d) || exit 2
 trap 'rm -rf "$S"' EXIT
